@@ -21,7 +21,7 @@ import warnings
 
 from .oracles import V
 
-NAMES = ["va", "vb", "vc", "vd"]
+NAMES = ["va", "vb", "vc", "vd", "layer"]      # ("layer": an ordinary user attribute name)
 LAYERS = ["feature", "rule", "scenario"]
 
 
